@@ -14,6 +14,7 @@ PAIRS = [
     ("Annapurnarc2.ttf", "udhr_hin.txt", 0),
     ("Awami_test.ttf", "awami_tests.txt", 1),
     ("AwamiNastaliq-Regular.ttf", "udhr_arb.txt", 1),
+    ("AwamiNastaliq-Regular.ttf", "awami_tests.txt", 1),
     ("Awami_compressed_test.ttf", "awami_tests.txt", 1),
     ("MagyarLinLibertineG.ttf", "udhr_eng.txt", 0),
     ("PigLatinBenchmark_v3.ttf", "udhr_eng.txt", 0),
